@@ -68,7 +68,9 @@ def gen_cartsamp(rng, seed):
     singleton axes, non-grid axes and per-`other` trajectories"""
     nz, ny, nx = rng.choice([1, 1, 2, 3]), rng.randint(1, 5), rng.randint(1, 5)
     other = rng.randint(1, 2)
-    flavour = rng.choice(['full', 'undersampled', 'permuted', 'duplicates', 'outside', 'nongrid_axis', 'per_other', 'dense', 'jitter', 'jitter'])
+    flavour = rng.choice(['full', 'undersampled', 'permuted', 'duplicates', 'outside', 'nongrid_axis', 'per_other', 'dense', 'jitter', 'jitter', 'interleaved', 'interleaved'])
+    if flavour == 'interleaved':  # full coverage, acquired in interleaves: first the lowest, last the highest grid point, not sorted in between
+        ny, nx = rng.randint(4, 6), rng.randint(1, 5)
     k2 = nz if flavour != 'undersampled' else max(1, nz - 1)
     k1 = ny if flavour not in ('undersampled',) else max(1, ny - rng.randint(0, 2))
     k0 = nx
@@ -80,6 +82,12 @@ def gen_cartsamp(rng, seed):
         elif flavour in ('permuted', 'per_other', 'jitter'):
             rng.shuffle(vals)
             vals = vals[:k]
+        elif flavour == 'interleaved':
+            if n >= 4:
+                mid = vals[1:-1]
+                while mid == sorted(mid):
+                    rng.shuffle(mid)
+                vals = [vals[0], *(mid if rng.random() < 0.5 else (vals[2:-1:2] + vals[1:-1:2] if vals[2:-1:2] + vals[1:-1:2] != vals[1:-1] else mid)), vals[-1]]
         elif flavour == 'duplicates':
             vals = [rng.choice(vals) for _ in range(k)]
         elif flavour == 'outside':
